@@ -141,6 +141,34 @@ M('c20_equals_path_message', 'C20', 'cell_type_mapper/cli/from_specified_markers
   "    log.info(f\"using ../{precomputed_loc.name} for precomputed_stats\")",
   "    log.info(f\"using stats={precomputed_loc} for precomputed_stats\")")
 
+# ---- C18 ------------------------------------------------------------------------------------
+M('c18_leaf_means_shifted', 'C18', 'cell_type_mapper/type_assignment/matching.py',
+  "        data[i_leaf, :] = this_mean", "        data[(i_leaf + 1) % n_cells, :] = this_mean")
+M('c18_stats_rows_by_sorted_name_EQUIVALENT', 'C18', 'cell_type_mapper/diff_exp/precompute_from_anndata.py',
+  "    cluster_list = list(leaf_to_cells.keys())\n    cluster_list.sort()\n",
+  "    cluster_list = list(leaf_to_cells.keys())\n    cluster_list.sort(key=lambda x: x[::-1])\n")
+M('c18_marker_key_format', 'C18', 'cell_type_mapper/marker_selection/selection_pipeline.py',
+  "    output_dict[parent_node] = marker_genes", "    output_dict[parent_node] = marker_genes[:0]")
+
+# ---- C05 / C13 ------------------------------------------------------------------------------
+M('c05_last_entry_dropped', 'C05', 'cell_type_mapper/utils/sparse_utils.py',
+  "    index1 = these_ptrs[-1]\n", "    index1 = these_ptrs[-1] - (1 if indptr_spec[0] > 0 and these_ptrs[-1] > these_ptrs[0] else 0)\n")
+M('c05_dense_batch_sorted', 'C05', 'cell_type_mapper/anndata_iterator/anndata_iterator.py',
+  "            output[idx, :] = raw[ii, :]", "            output[ii, :] = raw[ii, :]")
+M('c05_chunk_skips_row', 'C05', 'cell_type_mapper/anndata_iterator/anndata_iterator.py',
+  "        r1 = min(self.n_rows, self.r0+self.row_chunk_size)\n        chunk = self.get_chunk(r0=self.r0, r1=r1)\n        self.r0 = r1\n        return chunk\n\n    def get_chunk(self, r0, r1):\n        \"\"\"\n        Returns the tuple (data[r0:r1, :], r0, r1)\n        \"\"\"\n        with self.h5_handler as h5_handle:\n            chunk = load_csr(",
+  "        r1 = min(self.n_rows, self.r0+self.row_chunk_size)\n        chunk = self.get_chunk(r0=self.r0, r1=r1)\n        self.r0 = r1 + (1 if r1 == 7 else 0)\n        return chunk\n\n    def get_chunk(self, r0, r1):\n        \"\"\"\n        Returns the tuple (data[r0:r1, :], r0, r1)\n        \"\"\"\n        with self.h5_handler as h5_handle:\n            chunk = load_csr(")
+M('c13_next_slot_not_advanced', 'C13', 'cell_type_mapper/utils/csc_to_csr.py',
+  "                next_idx[unq_val] += unq_ct", "                next_idx[unq_val] += 0")
+M('c13_parallel_offset', 'C13', 'cell_type_mapper/utils/csc_to_csr_parallel.py',
+  "                indptr[indptr_idx:indptr_idx+src_n_ptr] = (src_indptr[:-1]\n                                                           + indices_idx)",
+  "                indptr[indptr_idx:indptr_idx+src_n_ptr] = (src_indptr[:-1]\n                                                           + indptr_idx)")
+M('c13_merge_csr_offset', 'C13', 'cell_type_mapper/utils/anndata_utils.py',
+  "                indptr_offset = (src['indptr'][-1].astype(index_dtype)\n                                 + indptr_offset)",
+  "                indptr_offset = (src['indptr'][-1].astype(index_dtype)\n                                 + indptr_offset - (1 if n_data > 3 else 0))")
+M('c13_unsorted_minor', 'C13', 'cell_type_mapper/utils/csc_to_csr.py',
+  "                this_index = this_index[col_sorted_dex]\n", "                this_index = this_index[col_sorted_dex[::-1]]\n")
+
 
 def run_mutant(name, tier='quick'):
     m = MUTANTS[name]
